@@ -518,6 +518,10 @@ func makeType(runInfo *runInfoStruct, typeStruct *ast.TypeStruct) reflect.Type {
 		if t == nil {
 			return nil
 		}
+		if !runInfo.options.Debug {
+			// captures panic (reflect refuses an element type of 64 KiB or more)
+			defer recoverFunc(runInfo)
+		}
 		return reflect.ChanOf(reflect.BothDir, t)
 	case ast.TypeStructType:
 		var t reflect.Type
